@@ -3,6 +3,8 @@
 // result lines. Every grammar node is a type-erased fcppt::parse::base<Val,Ch,Skipper> made by
 // fcppt::parse::make_base from the real combinator applied to fcppt::make_cref of its children.
 #include "common/vh.hpp"
+#include "c02_chars.hpp"
+#include "c02_typed.hpp"
 
 #include <fcppt/exception.hpp>
 #include <fcppt/make_cref.hpp>
@@ -20,15 +22,22 @@
 #include <fcppt/parse/basic_char_set.hpp>
 #include <fcppt/parse/basic_literal.hpp>
 #include <fcppt/parse/basic_stream_fwd.hpp>
+#include <fcppt/parse/as_struct.hpp>
 #include <fcppt/parse/basic_string.hpp>
+#include <fcppt/parse/blank.hpp>
+#include <fcppt/parse/blank_set.hpp>
 #include <fcppt/parse/construct.hpp>
 #include <fcppt/parse/convert.hpp>
+#include <fcppt/parse/convert_const.hpp>
 #include <fcppt/parse/convert_if.hpp>
+#include <fcppt/parse/digits.hpp>
 #include <fcppt/parse/epsilon.hpp>
 #include <fcppt/parse/error.hpp>
 #include <fcppt/parse/fail.hpp>
 #include <fcppt/parse/fatal_tag.hpp>
+#include <fcppt/parse/float.hpp>
 #include <fcppt/parse/grammar.hpp>
+#include <fcppt/parse/grammar_parse_stream.hpp>
 #include <fcppt/parse/grammar_parse_string.hpp>
 #include <fcppt/parse/int.hpp>
 #include <fcppt/parse/list.hpp>
@@ -40,11 +49,16 @@
 #include <fcppt/parse/make_lexeme.hpp>
 #include <fcppt/parse/make_recursive.hpp>
 #include <fcppt/parse/named.hpp>
+#include <fcppt/parse/parse.hpp>
+#include <fcppt/parse/parse_stream.hpp>
 #include <fcppt/parse/parse_string.hpp>
+#include <fcppt/parse/phrase_parse_stream.hpp>
 #include <fcppt/parse/phrase_parse_string.hpp>
 #include <fcppt/parse/result.hpp>
 #include <fcppt/parse/separator.hpp>
+#include <fcppt/parse/space.hpp>
 #include <fcppt/parse/space_set.hpp>
+#include <fcppt/parse/detail/stream_impl.hpp>
 #include <fcppt/parse/tag.hpp>
 #include <fcppt/parse/uint.hpp>
 #include <fcppt/parse/operators/alternative.hpp>
@@ -63,15 +77,18 @@
 #include <fcppt/parse/skipper/operators/sequence.hpp>
 #include <fcppt/tuple/get.hpp>
 #include <fcppt/tuple/object_impl.hpp>
+#include <fcppt/variant/apply.hpp>
 #include <fcppt/variant/match.hpp>
 #include <fcppt/variant/object_impl.hpp>
 
 #include <cstddef>
 #include <cstdint>
+#include <cstring>
 #include <deque>
 #include <exception>
 #include <optional>
 #include <pthread.h>
+#include <sstream>
 #include <string>
 #include <type_traits>
 #include <unordered_set>
@@ -99,11 +116,12 @@ struct Val
     some,
     inl,
     inr,
-    tag
+    tag,
+    flt
   };
 
   kind k;
-  long long n; // ch: code, int_: value, tag: k
+  long long n; // ch: code, int_: value, tag: k, flt: the bit pattern of the double
   std::vector<Val> kids;
 
   static Val unit() { return Val{kind::unit, 0, {}}; }
@@ -111,6 +129,13 @@ struct Val
   static Val integer(long long i) { return Val{kind::int_, i, {}}; }
   static Val list(std::vector<Val> &&v) { return Val{kind::list, 0, std::move(v)}; }
   static Val none() { return Val{kind::none, 0, {}}; }
+  static Val flt(double const d)
+  {
+    std::uint64_t bits = 0;
+    static_assert(sizeof bits == sizeof d);
+    std::memcpy(&bits, &d, sizeof bits);
+    return Val{kind::flt, static_cast<long long>(bits), {}};
+  }
   static Val one(kind k_, long long n_, Val &&v)
   {
     Val r{k_, n_, {}};
@@ -141,6 +166,10 @@ void print(Val const &v, std::string &out)
   case Val::kind::int_:
     out += 'i';
     out += std::to_string(v.n);
+    return;
+  case Val::kind::flt:
+    out += 'f';
+    out += std::to_string(static_cast<unsigned long long>(v.n));
     return;
   case Val::kind::list:
   {
@@ -188,6 +217,34 @@ void print(Val const &v, std::string &out)
 FCPPT_MAKE_STRONG_TYPEDEF(Val, LeftT);
 FCPPT_MAKE_STRONG_TYPEDEF(Val, RightT);
 
+// con:k / ast:k - the Result types of construct<Result> and as_struct<Result> in the Val world
+template <unsigned K>
+struct con_t
+{
+  Val v;
+  explicit con_t(Val &&_v) : v{std::move(_v)} {}
+};
+
+template <unsigned K>
+struct ast_t
+{
+  Val a;
+  Val b;
+  ast_t(Val &&_a, Val &&_b) : a{std::move(_a)}, b{std::move(_b)} {}
+};
+
+template <unsigned K>
+Val cv_con(con_t<K> &&c)
+{
+  return Val::one(Val::kind::tag, static_cast<long long>(K), std::move(c.v));
+}
+
+template <unsigned K>
+Val cv_ast(ast_t<K> &&c)
+{
+  return Val::one(Val::kind::tag, static_cast<long long>(K), Val::pair(std::move(c.a), std::move(c.b)));
+}
+
 // ---------------------------------------------------------------------------------------------
 // Conversions from the natural result types of the combinators to Val
 // ---------------------------------------------------------------------------------------------
@@ -203,7 +260,8 @@ Val cv_ch(Ch &&c)
 }
 
 Val cv_ushort(unsigned short &&v) { return Val::integer(static_cast<long long>(v)); }
-[[maybe_unused]] Val cv_short(short &&v) { return Val::integer(static_cast<long long>(v)); }
+Val cv_short(short &&v) { return Val::integer(static_cast<long long>(v)); }
+Val cv_double(double &&v) { return Val::flt(v); }
 
 Val cv_pair(fcppt::tuple::object<Val, Val> &&t)
 {
@@ -273,15 +331,6 @@ fp::result<Ch, Val> cif2(Val &&v)
   return fp::result<Ch, Val>{std::move(v)};
 }
 
-// range check standing in for int_<short>, see NK::int_ below
-template <typename Ch>
-fp::result<Ch, Val> cif_short_range(int &&v)
-{
-  if (v > 32767 || v < -32767)
-    return cif_fail<Ch>();
-  return fp::result<Ch, Val>{Val::integer(static_cast<long long>(v))};
-}
-
 // ---------------------------------------------------------------------------------------------
 // Grammar text -> AST
 // ---------------------------------------------------------------------------------------------
@@ -296,6 +345,7 @@ enum class NK
   str,
   uint_,
   int_,
+  float_,
   seq,
   alt,
   rep,
@@ -311,7 +361,13 @@ enum class NK
   cif,
   sep,
   list,
-  ref
+  ref,
+  con,
+  ast,
+  cst,
+  spc,
+  blk,
+  dig
 };
 
 struct node_desc
@@ -331,13 +387,15 @@ constexpr node_desc node_table[] = {
     {"fatal", NK::fatal, 1, false}, {"lex", NK::lex, 1, false},     {"ign", NK::ign, 1, false},
     {"named", NK::named, 1, false}, {"rec", NK::rec, 1, false},     {"conv", NK::conv, 1, true},
     {"cif", NK::cif, 1, true},      {"sep", NK::sep, 2, false},     {"list", NK::list, 4, false},
-    {"ref", NK::ref, 0, true}};
+    {"ref", NK::ref, 0, true},      {"float", NK::float_, 0, false},{"con", NK::con, 1, true},
+    {"ast", NK::ast, 1, true},      {"cst", NK::cst, 1, true},      {"spc", NK::spc, 0, false},
+    {"blk", NK::blk, 0, false},     {"dig", NK::dig, 0, false}};
 
 struct Node
 {
   NK kind;
-  std::string param;  // raw parameter characters (lit, cset, compl, str)
-  unsigned long num;  // conv / cif / ref
+  std::string param;  // raw parameter characters (lit, cset, compl, str, cst)
+  unsigned long num;  // conv / cif / ref / con / ast / cst (the integer constant)
   std::vector<std::size_t> kids;
 };
 
@@ -431,6 +489,34 @@ parse_expr(std::vector<std::string> const &toks, std::size_t &pos, Ast &ast, uns
     n.num = *num;
     break;
   }
+  case NK::con:
+  case NK::ast:
+  {
+    auto const num = small_number(param);
+    if (!num)
+      return std::nullopt;
+    if (desc->kind == NK::con ? (*num < 20 || *num >= 30) : (*num < 30 || *num >= 40))
+      return std::nullopt;
+    n.num = *num;
+    break;
+  }
+  case NK::cst:
+    // i<digits> (at most 4), c<char> or s<chars>
+    if (param.size() == 2 && param[0] == 'c')
+      n.param = param;
+    else if (!param.empty() && param[0] == 's')
+      n.param = param;
+    else if (param.size() >= 2 && param.size() <= 5 && param[0] == 'i')
+    {
+      auto const num = small_number(param.substr(1));
+      if (!num)
+        return std::nullopt;
+      n.num = *num;
+      n.param = "i";
+    }
+    else
+      return std::nullopt;
+    break;
   default:
     break;
   }
@@ -441,6 +527,9 @@ parse_expr(std::vector<std::string> const &toks, std::size_t &pos, Ast &ast, uns
       return std::nullopt;
     n.kids.push_back(*kid);
   }
+  // as_struct needs a tuple: in the Val world that is exactly a sequence node
+  if (desc->kind == NK::ast && ast.nodes[n.kids[0]].kind != NK::seq)
+    return std::nullopt;
   ast.nodes.push_back(std::move(n));
   return ast.nodes.size() - 1;
 }
@@ -465,48 +554,9 @@ std::optional<Ast> parse_grammar(std::string const &text)
   return ast;
 }
 
-// ---------------------------------------------------------------------------------------------
-// Characters
-// ---------------------------------------------------------------------------------------------
-template <typename Ch>
-Ch decode_char(char const c)
-{
-  switch (c)
-  {
-  case '_':
-    return static_cast<Ch>(32);
-  case '/':
-    return static_cast<Ch>(10);
-  case '^':
-    return static_cast<Ch>(9);
-  case '@':
-    if constexpr (std::is_same_v<Ch, wchar_t>)
-      return static_cast<Ch>(0x263A);
-    else
-      return static_cast<Ch>(64);
-  default:
-    return static_cast<Ch>(c);
-  }
-}
-
-template <typename Ch>
-std::basic_string<Ch> decode(std::string const &s)
-{
-  std::basic_string<Ch> r;
-  r.reserve(s.size());
-  for (char const c : s)
-    r.push_back(decode_char<Ch>(c));
-  return r;
-}
-
-template <typename Ch>
-std::unordered_set<Ch> decode_set(std::string const &s)
-{
-  std::unordered_set<Ch> r;
-  for (char const c : s)
-    r.insert(decode_char<Ch>(c));
-  return r;
-}
+using c02h::decode;
+using c02h::decode_char;
+using c02h::decode_set;
 
 // ---------------------------------------------------------------------------------------------
 // ref:<i> - indirection to a rule that is filled in after all rules have been built
@@ -616,15 +666,9 @@ public:
     case NK::uint_:
       return this->add(fp::make_convert(fp::uint<unsigned short>{}, &cv_ushort));
     case NK::int_:
-#if defined(C02_INT_SHORT_REAL)
       return this->add(fp::make_convert(fp::int_<short>{}, &cv_short));
-#else
-      // DEVIATION: fcppt::parse::int_<short> does not compile on the pinned tree (int_impl.hpp:
-      // "-_value" promotes to int, so either::map yields either<error,int> which is not
-      // convertible to result<Ch,short>). Use the real int_<int> and reject what short cannot
-      // hold, which is what int_<short> would do with the obvious cast added.
-      return this->add(fp::make_convert_if(fp::int_<int>{}, &cif_short_range<Ch>));
-#endif
+    case NK::float_:
+      return this->add(fp::make_convert(fp::float_<double>{}, &cv_double));
     case NK::seq:
     {
       auto a = kid(0);
@@ -707,15 +751,78 @@ public:
     }
     case NK::ref:
       return this->add(ref_parser<Ch, Sk>{&this->slots_[n.num]});
+    case NK::con:
+      return this->with_k<20>(n.num, [this, &kid](auto const k) {
+        return &this->add(fp::make_convert(fp::construct<con_t<decltype(k)::value>>(kid(0)), &cv_con<decltype(k)::value>));
+      });
+    case NK::ast:
+    {
+      // the child is a seq node (checked by the grammar decoder): as_struct over the real tuple<Val,Val> of a >> b
+      Node const &sq = this->ast_.nodes[n.kids[0]];
+      auto a = fcppt::make_cref(this->build(sq.kids[0]));
+      auto b = fcppt::make_cref(this->build(sq.kids[1]));
+      return this->with_k<30>(n.num, [this, &a, &b](auto const k) {
+        return &this->add(fp::make_convert(
+            fp::as_struct<ast_t<decltype(k)::value>>(std::move(a) >> std::move(b)), &cv_ast<decltype(k)::value>));
+      });
+    }
+    case NK::cst:
+    {
+      Val constant{Val::unit()};
+      if (n.param == "i")
+        constant = Val::integer(static_cast<long long>(n.num));
+      else if (n.param[0] == 'c')
+        constant = cv_ch<Ch>(decode_char<Ch>(n.param[1]));
+      else
+      {
+        // a constant that owns memory: a repetition must get a fresh copy every time
+        std::vector<Val> chars;
+        for (char const c : n.param.substr(1))
+          chars.push_back(cv_ch<Ch>(decode_char<Ch>(c)));
+        constant = Val::list(std::move(chars));
+      }
+      return this->add(fp::convert_const{fp::make_ignore(kid(0)), std::move(constant)});
+    }
+    case NK::spc:
+      if constexpr (std::is_same_v<Ch, char>)
+        return this->add(fp::make_convert(fp::space(), &cv_ch<Ch>));
+      else
+        return this->add(
+            fp::make_convert(fp::basic_char_set<Ch>{fp::space_set<Ch>()}, &cv_ch<Ch>));
+    case NK::blk:
+      if constexpr (std::is_same_v<Ch, char>)
+        return this->add(fp::make_convert(fp::blank(), &cv_ch<Ch>));
+      else
+        return this->add(
+            fp::make_convert(fp::basic_char_set<Ch>{fp::blank_set<Ch>()}, &cv_ch<Ch>));
+    case NK::dig:
+      return this->add(fp::make_convert(fp::digits<Ch>(), &cv_ch<Ch>));
     }
     std::abort();
   }
 
 private:
+  // run-time k in [Base, Base+10) -> compile-time constant
+  template <unsigned Base, typename F>
+  base_t const &with_k(unsigned long const _k, F const &_f)
+  {
+    base_t const *r = nullptr;
+    [&]<unsigned... I>(std::integer_sequence<unsigned, I...>) {
+      ((_k == Base + I ? (r = _f(std::integral_constant<unsigned, Base + I>{}), 0) : 0), ...);
+    }(std::make_integer_sequence<unsigned, 10>{});
+    if (r == nullptr)
+      std::abort();
+    return *r;
+  }
+
   template <typename Parser>
   base_t const &add(Parser &&_parser)
   {
-    this->nodes_.push_back(fp::make_base<Ch, Sk>(std::forward<Parser>(_parser)));
+    // both ways of hiding a parser's type: the free function and the static member of grammar
+    if (this->nodes_.size() % 2U == 0U)
+      this->nodes_.push_back(fp::make_base<Ch, Sk>(std::forward<Parser>(_parser)));
+    else
+      this->nodes_.push_back(fp::grammar<Val, Ch, Sk>::make_base(std::forward<Parser>(_parser)));
     return *this->nodes_.back().get_pointer();
   }
 
@@ -770,21 +877,22 @@ public:
     ref_depth = 0;
     try
     {
-      fp::result<Ch, Val> const res{this->parse(std::move(_input))};
+      std::string suffix{};
+      fp::result<Ch, Val> const res{this->parse(std::move(_input), suffix)};
       if (res.has_success())
       {
         ++_counts.ok;
         std::string out{"ok "};
         print(res.get_success_unsafe(), out);
-        return out;
+        return out + suffix;
       }
       if (res.get_failure_unsafe().is_fatal())
       {
         ++_counts.fatal;
-        return "fatal";
+        return "fatal" + suffix;
       }
       ++_counts.fail;
-      return "fail";
+      return "fail" + suffix;
     }
     catch (depth_exceeded const &)
     {
@@ -805,11 +913,44 @@ public:
   }
 
 private:
-  fp::result<Ch, Val> parse(std::basic_string<Ch> &&_input) const
+  // the stream entry points: no consume_remaining; _suffix = " @<offset the std::istream is left at>"
+  fp::result<Ch, Val> parse_stream(std::basic_string<Ch> &&_input, std::string &_suffix) const
+  {
+    std::basic_istringstream<Ch> stream{std::move(_input)};
+    stream.unsetf(std::ios_base::skipws);
+    fp::result<Ch, Val> res{[&]() -> fp::result<Ch, Val> {
+      if constexpr (std::is_same_v<Sk, fsk::epsilon>)
+      {
+        if (this->entry_ == 'q')
+        {
+          // fcppt::parse::parse on a basic_stream
+          fp::detail::stream<Ch> state{fcppt::make_ref(
+              static_cast<std::basic_istream<Ch> &>(stream))};
+          return fp::parse(this->worlds_.get().start(), state);
+        }
+        if (this->entry_ == 't')
+          return fp::parse_stream(this->worlds_.get().start(), stream);
+      }
+      return this->entry_ == 's'
+                 ? fp::phrase_parse_stream(this->worlds_.get().start(), stream, this->skipper_)
+                 : fp::grammar_parse_stream(stream, this->grammar_);
+    }()};
+    stream.clear();
+    auto const pos{stream.tellg()};
+    _suffix = " @" + std::to_string(static_cast<long long>(pos));
+    return res;
+  }
+
+  fp::result<Ch, Val> parse(std::basic_string<Ch> &&_input, std::string &_suffix) const
   {
     fp::base<Val, Ch, Sk> const &start{this->worlds_.get().start()};
     switch (this->entry_)
     {
+    case 's':
+    case 'r':
+    case 'q':
+    case 't':
+      return this->parse_stream(std::move(_input), _suffix);
     case 'p':
       if constexpr (std::is_same_v<Sk, fsk::epsilon>)
         return fp::parse_string(start, std::move(_input));
@@ -892,16 +1033,7 @@ auto space_skipper()
   if constexpr (std::is_same_v<Ch, char>)
     return fsk::space();
   else
-  {
-#if defined(C02_WSPACE_REAL)
     return fsk::basic_space<Ch>();
-#else
-    // DEVIATION: fcppt::parse::skipper::basic_space<wchar_t>() does not compile on the pinned tree
-    // (basic_space.hpp builds skipper::char_set, i.e. basic_char_set<char>, from space_set<Ch>()).
-    // Build what it evidently means from the real space_set<wchar_t>().
-    return *fsk::basic_char_set<Ch>{fp::space_set<Ch>()};
-#endif
-  }
 }
 
 template <typename Ch>
@@ -912,7 +1044,7 @@ std::string by_skipper(std::string const &_sk, Ast const &_ast, op const &_op)
   using rep_t = fsk::repetition<cs_t>;
   using seq_t = fsk::sequence<lit_t, rep_t>;
   std::string const rest{_sk.substr(1)};
-  if (_op.entry == 'p' && _sk != "E")
+  if ((_op.entry == 'p' || _op.entry == 'q' || _op.entry == 't') && _sk != "E")
     return "bad-op";
   switch (_sk[0])
   {
@@ -954,15 +1086,16 @@ std::string handle(std::vector<std::string> const &t)
 {
   if (t.empty())
     return "bad-op";
-  bool const is_enum = t[0] == "enum";
-  if (!is_enum && t[0] != "run")
+  bool const is_typed = t[0] == "typed" || t[0] == "tenum";
+  bool const is_enum = t[0] == "enum" || t[0] == "tenum";
+  if (!is_enum && t[0] != "run" && t[0] != "typed")
     return "bad-op";
   if (t.size() != (is_enum ? 6U : 5U))
     return "bad-op";
   std::string const &ce = t[1];
   std::string const &sk = t[2];
   if (ce.size() != 2 || (ce[0] != 'c' && ce[0] != 'w') ||
-      (ce[1] != 'p' && ce[1] != 'h' && ce[1] != 'g'))
+      (ce[1] != 'p' && ce[1] != 'h' && ce[1] != 'g' && ce[1] != 's' && ce[1] != 'r' && ce[1] != 'q' && ce[1] != 't'))
     return "bad-op";
   if (sk.empty() || !ascii_only(sk))
     return "bad-op";
@@ -977,6 +1110,8 @@ std::string handle(std::vector<std::string> const &t)
       return "bad-op";
     maxlen = static_cast<unsigned>(*ml);
   }
+  if (is_typed)
+    return c02typed::run(ce, sk, t[3], c02typed::top{is_enum, ce[1], payload, maxlen});
   auto const ast = parse_grammar(t[3]);
   if (!ast)
     return "bad-op";
